@@ -60,12 +60,12 @@ def gen_cases(ctx):
             cases.append((block, {'S': {}, 'P': {}}))
             cases.append((block, {'S': {}, 'P': {p: [True, True] for p in range(12)}}))
             for _ in range(per_shape):
-                cases.append((block, og.random_tabs(rng, ids=4)))
+                cases.append((block, og.random_tabs(rng, ids=4, with_awaitable=True)))
     n_random = 3000 if not ctx.thorough else 40000
     depth = 4 if not ctx.thorough else 6
     for _ in range(n_random):
         block = og.random_block(rng, rng.randint(1, depth))
-        cases.append((block, og.random_tabs(rng)))
+        cases.append((block, og.random_tabs(rng, with_awaitable=True)))
     # corpus: the literal-reading corner of the result clause and the scan-restart corner of `_IfStepper`
     cases.append(([('C', 0), ('I', [(0, [('C', 1)])])], {'S': {0: ['T']}, 'P': {0: [False]}}))
     cases.append(([('I', [(0, [('C', 0), ('C', 1)]), (1, [('C', 2)]), (None, [('C', 3)])]), ('C', 4)],
